@@ -126,7 +126,7 @@ def run(ctx, idx):
     fi = d.execute
     kw = fi.node.args.kwarg.arg
     seqs = {}
-    comps = [n for n in own_nodes(fi.node) if isinstance(n, ast.ListComp) and len(n.generators) == 1]
+    comps = [n for n in own_nodes(fi.node) if isinstance(n, (ast.ListComp, ast.GeneratorExp)) and len(n.generators) == 1]
     header = [c for c in comps if isinstance(c.elt, ast.Attribute) and c.elt.attr == "result_name"]
     cols = [c for c in comps if isinstance(c.elt, ast.Attribute) and c.elt.attr == "result"]
     con = "%s.execute::same-order" % d.key
@@ -140,7 +140,7 @@ def run(ctx, idx):
            "the header walks `%s` but the columns walk `%s`%s: names and data columns can be mismatched" % (hs, cs, " and a reordering call is present" if reorder or sort_m else ""))
     wrow = sorted([n for n in own_nodes(fi.node) if isinstance(n, ast.Call) and isinstance(n.func, ast.Attribute) and n.func.attr == "writerow"], key=lambda n: n.lineno)
     ok = bool(wrow) and any(wrow[0].args and (wrow[0].args[0] is hh or (isinstance(wrow[0].args[0], ast.Name) and K.expand(fi, wrow[0].args[0]) is not None and K.src(K.expand(fi, wrow[0].args[0])) == K.src(hh))) for hh in header)
-    ctx.ob("C17.d", "%s.execute::header-written" % d.key, d.module.rel, wrow[0].lineno if wrow else fi.node.lineno, ok, "the header row is the result names" if ok else "the header row is not the list of result names")
+    ctx.ob("C17.d", "%s.execute::header-written" % d.key, d.module.rel, wrow[0].lineno if wrow else fi.node.lineno, ok, "the header row is the result names, written through the csv writer" if ok else "the header row is not the list of result names handed to the csv writer's writerow: names are then not CSV-quoted (a name containing a comma or a quote shifts every later column) or not written at all")
     lossy = []
     for n in own_nodes(fi.node):
         if isinstance(n, ast.Call):
